@@ -274,7 +274,8 @@ func (t *tf) retExpr(ss []ast.Stmt) string {
 //
 // vstmts understands: `x := e` (uint64), `buf := make([]byte, n)`, `v, ok := readWordAsUint64(DATA, e)`
 // followed by `if !ok { return nil }`, `copy(buf, DATA[a:b])`, `if c { ...return }`,
-// `if c { updates }` (updates: `x := e`, `if d { x = e }`, copy), `return nil`, `return buf`,
+// `if c { updates }` (updates: `x := e`, `if d { x = e }`, copy), `if d { x = e }`, `if a <= b { return buf }`
+// (rendered through the mirrored strict comparison, see mirror), `return nil`, `return buf`,
 // and returns of calls that have a translation in rename.
 func (t *tf) vstmts(ss []ast.Stmt) string {
 	if len(ss) == 0 {
@@ -346,6 +347,19 @@ func (t *tf) vstmts(ss []ast.Stmt) string {
 		if s.Init != nil || s.Else != nil {
 			return t.fail("unsupported if form in a value function")
 		}
+		// early return of the buffer, `if a <= b { return buf }`: the buffer stays as it is unless
+		// b < a (the early-return form of `if b < a { updates }`)
+		if len(s.Body.List) == 1 && t.buf != "" {
+			if r, ok := s.Body.List[0].(*ast.ReturnStmt); ok && len(r.Results) == 1 && exprText(r.Results[0]) == t.buf {
+				if c, swapped := t.mirror(s.Cond); swapped {
+					return "if " + c + " then (" + rest() + ")\n  else " + cname(t.buf)
+				}
+			}
+		}
+		// if d { x = e } for a local x
+		if txt, ok := t.condAssign(s); ok {
+			return txt + "\n  " + rest()
+		}
 		if endsInReturn(s.Body.List) {
 			c := t.expr(s.Cond)
 			saved := t.buf
@@ -360,6 +374,46 @@ func (t *tf) vstmts(ss []ast.Stmt) string {
 		return "let " + b + " := if " + t.expr(s.Cond) + " then (" + t.ublock(s.Body.List) + ") else " + b + " in\n  " + rest()
 	}
 	return t.fail("unsupported statement %T in a value function", ss[0])
+}
+
+// mirror: a condition `a <= b` (`a >= b`) is the negation of `b < a` (`a < b`) on integers. For
+// those two forms it returns the strict comparison and true: the caller renders
+// `if a <= b then X else Y` as `if b < a then Y else X`, the same function written with the one
+// comparison the rest of the translation uses. Every other condition is returned as it is.
+func (t *tf) mirror(c ast.Expr) (string, bool) {
+	for {
+		p, ok := c.(*ast.ParenExpr)
+		if !ok {
+			break
+		}
+		c = p.X
+	}
+	if b, ok := c.(*ast.BinaryExpr); ok {
+		switch b.Op {
+		case token.LEQ:
+			return "(" + t.expr(b.Y) + " <? " + t.expr(b.X) + ")", true
+		case token.GEQ:
+			return "(" + t.expr(b.X) + " <? " + t.expr(b.Y) + ")", true
+		}
+	}
+	return t.expr(c), false
+}
+
+// condAssign: `if d { x = e }` for a local x, i.e. x := if d then e else x.
+func (t *tf) condAssign(s *ast.IfStmt) (string, bool) {
+	if s.Init != nil || s.Else != nil || len(s.Body.List) != 1 {
+		return "", false
+	}
+	as, ok := s.Body.List[0].(*ast.AssignStmt)
+	if !ok || as.Tok != token.ASSIGN || len(as.Lhs) != 1 || len(as.Rhs) != 1 || !t.locals[exprText(as.Lhs[0])] {
+		return "", false
+	}
+	x := cname(exprText(as.Lhs[0]))
+	c, swapped := t.mirror(s.Cond)
+	if swapped {
+		return fmt.Sprintf("let %s := if %s then %s else %s in ", x, c, x, t.expr(as.Rhs[0])), true
+	}
+	return fmt.Sprintf("let %s := if %s then %s else %s in ", x, c, t.expr(as.Rhs[0]), x), true
 }
 
 // copy(buf, DATA[a:b])
@@ -391,15 +445,11 @@ func (t *tf) ublock(ss []ast.Stmt) string {
 			fmt.Fprintf(&sb, "let %s := %s in ", cname(id.Name), v)
 		case *ast.IfStmt:
 			// if d { x = e }
-			if s.Init != nil || s.Else != nil || len(s.Body.List) != 1 {
-				return t.fail("unsupported if in an update block")
-			}
-			as, ok := s.Body.List[0].(*ast.AssignStmt)
-			if !ok || as.Tok != token.ASSIGN || len(as.Lhs) != 1 || len(as.Rhs) != 1 || !t.locals[exprText(as.Lhs[0])] {
+			txt, ok := t.condAssign(s)
+			if !ok {
 				return t.fail("unsupported conditional statement in an update block")
 			}
-			x := cname(exprText(as.Lhs[0]))
-			fmt.Fprintf(&sb, "let %s := if %s then %s else %s in ", x, t.expr(s.Cond), t.expr(as.Rhs[0]), x)
+			sb.WriteString(txt)
 		case *ast.ExprStmt:
 			sb.WriteString(t.copyStmt(s))
 		default:
